@@ -234,8 +234,15 @@ where
             let mut n_finished = 0;
             let mut most_recent = vec![None; rxs.len()];
             let mut total_progress;
+            #[cfg(feature = "verif-hooks")]
+            let mut verif_iter: u64 = 0;
 
             loop {
+                #[cfg(feature = "verif-hooks")]
+                {
+                    crate::verif::global_event("reporter_iter", &[verif_iter, n_finished as u64]);
+                    verif_iter += 1;
+                }
                 for (i, rx) in rxs.iter().enumerate() {
                     while let Ok(stats) = rx.recv_timeout(timeout_ms) {
                         most_recent[i] = Some(stats)
@@ -296,6 +303,16 @@ where
                     active.remove(*i);
                 }
 
+                #[cfg(feature = "verif-hooks")]
+                crate::verif::global_event(
+                    "reporter_book",
+                    &[
+                        verif_iter,
+                        n_finished as u64,
+                        active.len() as u64,
+                        next_active as u64,
+                    ],
+                );
                 if n_finished >= most_recent.len() {
                     break;
                 }
@@ -510,6 +527,8 @@ where
                 if let Err(e) = tx.send(tracker.stats()) {
                     eprintln!("Sending chain statistics failed: {e}");
                 }
+                #[cfg(feature = "verif-hooks")]
+                crate::verif::global_event("worker_sent", &[i as u64 + 1, total as u64]);
                 last = now;
             }
 
@@ -541,6 +560,16 @@ where
             self.epsilon = find_reasonable_epsilon(self.position.clone(), mom_0, &self.target);
         }
         self.mu = T::ln(T::from(10).unwrap() * self.epsilon);
+        #[cfg(feature = "verif-hooks")]
+        if crate::verif::enabled() {
+            let mut f = vec![crate::verif::f(self.epsilon), crate::verif::f(self.mu)];
+            f.extend(crate::verif::flat(&self.position));
+            crate::verif::emit(
+                "nuts_init",
+                &[self.m as i64, n_collect as i64, n_discard as i64],
+                &f,
+            );
+        }
         (dim, sample)
     }
 
@@ -562,6 +591,17 @@ where
             T::from_f64(joint.into_scalar().to_f64()).expect("successful conversion from 64 to T");
         let exp1_obs = self.rng.sample(Exp1);
         let logu = joint - exp1_obs;
+        #[cfg(feature = "verif-hooks")]
+        if crate::verif::enabled() {
+            let mut f = vec![
+                crate::verif::f(self.epsilon),
+                crate::verif::f(joint),
+                crate::verif::f(logu),
+            ];
+            f.extend(crate::verif::flat(&self.position));
+            f.extend(crate::verif::flat(&mom_0));
+            crate::verif::emit("nuts_begin", &[self.m as i64, dim as i64], &f);
+        }
 
         let mut position_minus = self.position.clone();
         let mut position_plus = self.position.clone();
@@ -578,6 +618,14 @@ where
         while s {
             let u_run_1: T = self.rng.random::<T>();
             let v = (2 * (u_run_1 < T::from(0.5).unwrap()) as i8) - 1;
+            #[cfg(feature = "verif-hooks")]
+            if crate::verif::enabled() {
+                crate::verif::emit(
+                    "nuts_dir",
+                    &[j as i64, v as i64, n as i64],
+                    &[crate::verif::f(u_run_1)],
+                );
+            }
 
             let (position_prime, n_prime, s_prime) = {
                 if v == -1 {
@@ -658,6 +706,16 @@ where
                     / T::from(n).expect("successful conversion of n from usize to T"),
             );
             let u_run_2 = self.rng.random::<T>();
+            #[cfg(feature = "verif-hooks")]
+            if crate::verif::enabled() {
+                let mut f = vec![crate::verif::f(u_run_2), crate::verif::f(alpha)];
+                f.extend(crate::verif::flat(&position_prime));
+                crate::verif::emit(
+                    "nuts_tree",
+                    &[j as i64, n_prime as i64, s_prime as i64, n_alpha as i64],
+                    &f,
+                );
+            }
             if s_prime && (u_run_2 < tmp) {
                 self.position = position_prime;
             }
@@ -670,6 +728,15 @@ where
                     mom_minus.clone(),
                     mom_plus.clone(),
                 );
+            #[cfg(feature = "verif-hooks")]
+            if crate::verif::enabled() {
+                let mut f = crate::verif::flat(&self.position);
+                f.extend(crate::verif::flat(&position_minus));
+                f.extend(crate::verif::flat(&position_plus));
+                f.extend(crate::verif::flat(&mom_minus));
+                f.extend(crate::verif::flat(&mom_plus));
+                crate::verif::emit("nuts_doubled", &[j as i64, n as i64, s as i64], &f);
+            }
             j += 1
         }
 
@@ -688,6 +755,48 @@ where
         } else {
             self.epsilon = self.epsilon_bar;
         }
+        #[cfg(feature = "verif-hooks")]
+        if crate::verif::enabled() {
+            let mut f = vec![
+                crate::verif::f(self.epsilon),
+                crate::verif::f(self.epsilon_bar),
+                crate::verif::f(self.h_bar),
+                crate::verif::f(self.mu),
+                crate::verif::f(alpha),
+            ];
+            f.extend(crate::verif::flat(&self.position));
+            crate::verif::emit(
+                "nuts_end",
+                &[self.m as i64, self.n_discard as i64, n_alpha as i64],
+                &f,
+            );
+        }
+    }
+
+    /// Verification hook: `(m, n_discard, epsilon, epsilon_bar, h_bar, mu)` of this chain.
+    #[cfg(feature = "verif-hooks")]
+    pub fn verif_state(&self) -> (usize, usize, T, T, T, T) {
+        (
+            self.m,
+            self.n_discard,
+            self.epsilon,
+            self.epsilon_bar,
+            self.h_bar,
+            self.mu,
+        )
+    }
+
+    /// Verification hook: a copy of the chain's private generator in its current state.
+    #[cfg(feature = "verif-hooks")]
+    pub fn verif_rng_clone(&self) -> SmallRng {
+        self.rng.clone()
+    }
+
+    /// Verification hook: overrides the step size (skips the start-up heuristic when set
+    /// before the first `run`).
+    #[cfg(feature = "verif-hooks")]
+    pub fn verif_set_epsilon(&mut self, epsilon: T) {
+        self.epsilon = epsilon;
     }
 }
 
@@ -813,6 +922,19 @@ where
         let grad_plus = grad_prime.clone();
         let alpha_prime = T::min(T::one(), (joint - joint_0).exp());
         let n_alpha_prime = 1_usize;
+        #[cfg(feature = "verif-hooks")]
+        if crate::verif::enabled() {
+            let mut f = vec![crate::verif::f(joint), crate::verif::f(alpha_prime)];
+            f.extend(crate::verif::flat(&position));
+            f.extend(crate::verif::flat(&mom));
+            f.extend(crate::verif::flat(&position_prime));
+            f.extend(crate::verif::flat(&mom_prime));
+            crate::verif::emit(
+                "nuts_leaf",
+                &[v as i64, n_prime as i64, s_prime as i64],
+                &f,
+            );
+        }
         (
             position_minus,
             mom_minus,
@@ -908,6 +1030,25 @@ where
             }
 
             let u_build_tree: f64 = (*rng).random::<f64>();
+            #[cfg(feature = "verif-hooks")]
+            if crate::verif::enabled() {
+                let mut f = vec![u_build_tree];
+                f.extend(crate::verif::flat(&position_prime));
+                f.extend(crate::verif::flat(&position_prime_2));
+                crate::verif::emit(
+                    "nuts_merge",
+                    &[
+                        j as i64,
+                        n_prime as i64,
+                        n_prime_2 as i64,
+                        s_prime as i64,
+                        s_prime_2 as i64,
+                        n_alpha_prime as i64,
+                        n_alpha_prime_2 as i64,
+                    ],
+                    &f,
+                );
+            }
             if u_build_tree < (n_prime_2 as f64 / (n_prime + n_prime_2).max(1) as f64) {
                 position_prime = position_prime_2;
                 grad_prime = grad_prime_2;
@@ -926,6 +1067,25 @@ where
                 );
             alpha_prime = alpha_prime + alpha_prime_2;
             n_alpha_prime += n_alpha_prime_2;
+        }
+        #[cfg(feature = "verif-hooks")]
+        if crate::verif::enabled() {
+            let mut f = vec![crate::verif::f(alpha_prime)];
+            f.extend(crate::verif::flat(&position_prime));
+            f.extend(crate::verif::flat(&position_minus));
+            f.extend(crate::verif::flat(&position_plus));
+            f.extend(crate::verif::flat(&mom_minus));
+            f.extend(crate::verif::flat(&mom_plus));
+            crate::verif::emit(
+                "nuts_ret",
+                &[
+                    j as i64,
+                    n_prime as i64,
+                    s_prime as i64,
+                    n_alpha_prime as i64,
+                ],
+                &f,
+            );
         }
         (
             position_minus,
@@ -993,6 +1153,86 @@ where
     let (ulogp_prime, grad_prime) = gradient_target.unnorm_logp_and_grad(position_prime.clone());
     let mom_prime = mom_prime + grad_prime.clone() * epsilon * 0.5;
     (position_prime, mom_prime, grad_prime, ulogp_prime)
+}
+
+/// Verification hooks: public wrappers around the private building blocks of a transition.
+#[cfg(feature = "verif-hooks")]
+pub mod verif_api {
+    use super::*;
+
+    /// `find_reasonable_epsilon` (Algorithm 4 start-up heuristic).
+    pub fn find_reasonable_epsilon<B, T, GTarget>(
+        position: Tensor<B, 1>,
+        mom: Tensor<B, 1>,
+        gradient_target: &GTarget,
+    ) -> T
+    where
+        T: Float + Element,
+        B: AutodiffBackend,
+        GTarget: GradientTarget<T, B> + Sync,
+    {
+        super::find_reasonable_epsilon(position, mom, gradient_target)
+    }
+
+    /// `stop_criterion`: true iff no U-turn between the two end points.
+    pub fn stop_criterion<B: AutodiffBackend>(
+        position_minus: Tensor<B, 1>,
+        position_plus: Tensor<B, 1>,
+        mom_minus: Tensor<B, 1>,
+        mom_plus: Tensor<B, 1>,
+    ) -> bool {
+        super::stop_criterion(position_minus, position_plus, mom_minus, mom_plus)
+    }
+
+    /// One `leapfrog` step: `(position', momentum', gradient', log-density')`.
+    pub fn leapfrog<B, T, GTarget>(
+        position: Tensor<B, 1>,
+        mom: Tensor<B, 1>,
+        grad: Tensor<B, 1>,
+        epsilon: T,
+        gradient_target: &GTarget,
+    ) -> (Tensor<B, 1>, Tensor<B, 1>, Tensor<B, 1>, Tensor<B, 1>)
+    where
+        T: Float + ElementConversion,
+        B: AutodiffBackend,
+        GTarget: GradientTarget<T, B>,
+    {
+        super::leapfrog(position, mom, grad, epsilon, gradient_target)
+    }
+
+    /// `build_tree`, reduced to `(position', n', s', alpha', n_alpha')`.
+    #[allow(clippy::too_many_arguments)]
+    pub fn build_tree<B, T, GTarget>(
+        position: Tensor<B, 1>,
+        mom: Tensor<B, 1>,
+        grad: Tensor<B, 1>,
+        logu: T,
+        v: i8,
+        j: usize,
+        epsilon: T,
+        gradient_target: &GTarget,
+        joint_0: T,
+        rng: &mut SmallRng,
+    ) -> (Tensor<B, 1>, usize, bool, T, usize)
+    where
+        T: Float + Element,
+        B: AutodiffBackend,
+        GTarget: GradientTarget<T, B> + Sync,
+    {
+        let r = super::build_tree(
+            position,
+            mom,
+            grad,
+            logu,
+            v,
+            j,
+            epsilon,
+            gradient_target,
+            joint_0,
+            rng,
+        );
+        (r.6, r.9, r.10, r.11, r.12)
+    }
 }
 
 #[cfg(test)]
